@@ -137,7 +137,9 @@ def h_spec(case):
                 ops.append({"op": "valve", "id": eid + "v", "et": "pi", "from": fa, "pipe": eid,
                             "opened": "closed" not in k})
                 if k == "pipe_vpi2":
-                    ops.append({"op": "valve", "id": eid + "w", "et": "pi", "from": fa, "pipe": eid, "opened": True})
+                    # second valve at the other end of the pipe (two valves at the same end are parallel zero-resistance
+                    # branches: the flow split is undetermined and the solver never returns)
+                    ops.append({"op": "valve", "id": eid + "w", "et": "pi", "from": fb, "pipe": eid, "opened": True})
         elif k.startswith("valve"):
             ops.append({"op": "valve", "id": eid, "from": ja, "to": jb, "opened": k == "valve"})
         elif k == "pump":
